@@ -8,6 +8,7 @@ import (
 	mrand "math/rand"
 	"net"
 	"os"
+	"runtime"
 	"sort"
 	"testing"
 	"testing/cryptotest"
@@ -165,6 +166,9 @@ func ExecFull(t *testing.T, pa any, col *kernel.Collector) []kernel.Violation {
 }
 
 func execFull(p *FullPlan, col *kernel.Collector) []kernel.Violation {
+	// whole nodes race here for real: one P, so that the interleaving between quiescence points
+	// is the runtime's deterministic run queue and not the machine's parallelism
+	defer runtime.GOMAXPROCS(runtime.GOMAXPROCS(1))
 	simStart := time.Now() // the bubble's clock: elapsed = simulated time
 	defer func() { col.AddSim(time.Since(simStart)) }()
 	var vs []kernel.Violation
